@@ -4,7 +4,7 @@
     safety of the object code (ASan / TSan runs of the same harness) and the sorting result itself (checked on every run
     by the harness: sorted, permutation of the string objects, exact LCPs). *)
 From Coq Require Import List Arith Sorting.Sorted Sorting.Permutation.
-From TLXV Require Import Common.Order C04.Jobs C04.JobsProofs C04.SampleSort.
+From TLXV Require Import Common.Order C04.Jobs C04.JobsProofs C04.SampleSort C04.PWork.
 Import ListNotations.
 
 (** For every event sequence the code can produce -- any number of worker threads, any interleaving, any recursion
@@ -62,3 +62,10 @@ Print Assumptions C04_sample_sort_step_correct.
 Theorem C04_classify_monotone : forall sp k1 k2, Sorted le sp -> k1 <= k2 -> classify sp k1 <= classify sp k2.
 Proof. exact classify_mono. Qed.
 Print Assumptions C04_classify_monotone.
+
+(** The phase counter of a big step (`if (--pwork_ == 0) next_phase()` executed by each of k jobs, k >= 1): in every
+    order of the decrements the next phase starts exactly once, and only after all k jobs have decremented. *)
+Theorem C04_phase_counter_exactly_once : forall k n s, 1 <= k -> prun n (pinit k) = Some s ->
+  n <= k /\ started s = (if n =? k then 1 else 0).
+Proof. exact pwork_exactly_once_after_all. Qed.
+Print Assumptions C04_phase_counter_exactly_once.
